@@ -1303,3 +1303,86 @@ def rt_planar(slope, w, u, b):
             return (f"_UnconditionalPlanar(weight={list(map(float, w))}, act_scale={list(map(float, u))}, bias={float(b)}, negative_slope={float(slope)}): w.u_hat = {wu_hat:.6g}, "
                     f"1 + slope*w.u_hat = {1 + slope * wu_hat:.6g}; x = {np.asarray(x).tolist()} -> y = {np.asarray(y).tolist()} but inverse(y) = {np.asarray(xb).tolist()}")
     return None
+
+
+# --------------------------------------------------------------------------------------
+# C12: real unwrap / frozen leaves through real training loops with several optimisers
+def rt_c12(tier="quick", first_only=False, count=None):
+    import equinox as eqx
+    import optax
+    import flowjax.bijections as B
+    import flowjax.distributions as Dm
+    import flowjax.flows as Fl
+    from flowjax.train import fit_to_data, fit_to_variational_target
+    from flowjax.train.losses import ElboLoss
+    from flowjax.wrappers import BijectionReparam, Lambda, NonTrainable, Where, non_trainable, unwrap
+    import jax.random as jr
+
+    fails, n = [], 0
+
+    def add(msg, **case):
+        fails.append(dict(what=msg, case=case))
+
+    def leaves_equal(a, b):
+        la, lb = jax.tree_util.tree_leaves(a), jax.tree_util.tree_leaves(b)
+        return len(la) == len(lb) and all(np.array_equal(np.asarray(x), np.asarray(y)) for x, y in zip(la, lb))
+
+    # nested wrappers: value, idempotence, wrapper-free
+    n += 1
+    mask = jnp.array([True, False, True])
+    inner = BijectionReparam(jnp.array([0.5, 1.5, 2.5]), B.SoftPlus())
+    nested = Where(mask, inner, Where(~mask, jnp.full(3, -1.0), 7.0))
+    tree = {"m": B.Affine(jnp.zeros(3), jnp.array([0.5, 1.5, 2.5])), "w": [nested, 3, "s"], "l": (Lambda(lambda v, k=0.0: 2 * v + k, inner, k=NonTrainable(jnp.ones(3))),)}
+    u = unwrap(tree)
+    uu = unwrap(u)
+    if any(isinstance(x, eqx.Module) and hasattr(x, "unwrap") for x in jax.tree_util.tree_leaves(u, is_leaf=lambda x: hasattr(x, "unwrap"))):
+        add("unwrap left a wrapper node in the tree")
+    if not leaves_equal(u, uu):
+        add("unwrap is not idempotent")
+    want_w = np.where(np.asarray(mask), [0.5, 1.5, 2.5], -1.0)
+    if not np.allclose(np.asarray(u["w"][0]), want_w) or not np.allclose(np.asarray(u["l"][0]), 2 * np.array([0.5, 1.5, 2.5]) + 1.0):
+        add(f"nested wrappers unwrap to {np.asarray(u['w'][0]).tolist()} / {np.asarray(u['l'][0]).tolist()}")
+    # methods give the same result on pre-unwrapped objects
+    key = jr.PRNGKey(0)
+    flow = _perturb(Fl.masked_autoregressive_flow(key, base_dist=Dm.Normal(jnp.zeros(2), jnp.ones(2)), flow_layers=2, nn_width=8), 3)
+    x = jnp.array([[0.3, -0.7], [1.2, 0.1]])
+    n += 1
+    uf = unwrap(flow)
+    if not np.allclose(np.asarray(flow.log_prob(x)), np.asarray(uf.log_prob(x)), rtol=1e-12) or not np.allclose(np.asarray(flow.sample(key, (3,))), np.asarray(uf.sample(key, (3,)))) or \
+            not np.allclose(np.asarray(flow.bijection.inverse(x[0])), np.asarray(uf.bijection.inverse(x[0]))):
+        add("methods differ between the wrapped model and the pre-unwrapped model")
+    # frozen leaves: zero gradient + bit-identical after training with parameter-dependent optimisers
+    opts = [("adam", optax.adam(1e-2)), ("adamw", optax.adamw(1e-2, weight_decay=0.1)), ("sgd+decay", optax.chain(optax.add_decayed_weights(0.1), optax.sgd(1e-2)))]
+    data = jr.normal(key, (24, 2))
+
+    def freeze_variants(d):
+        out = [("whole base frozen", eqx.tree_at(lambda t: t.base_dist, d, replace_fn=non_trainable), lambda t: t.base_dist)]
+        out.append(("first layer params frozen via non_trainable(bijection)", eqx.tree_at(lambda t: t.bijection, d, replace_fn=non_trainable), lambda t: t.bijection))
+        return out
+
+    for vname, model, pick in freeze_variants(flow):
+        frozen_before = jax.tree_util.tree_leaves(pick(model))
+        nonfloat_before = [l for l in jax.tree_util.tree_leaves(model) if not eqx.is_inexact_array(l)]
+        n += 1
+        g = eqx.filter_grad(lambda m: jnp.mean(m.log_prob(data)))(model)
+        gl = [l for l in jax.tree_util.tree_leaves(pick(g)) if l is not None]
+        if any(np.any(np.asarray(l) != 0) for l in gl):
+            add(f"{vname}: frozen leaves received a non-zero gradient", variant=vname)
+        for oname, opt in opts:
+            for loop in ("fit_to_data", "fit_to_variational_target"):
+                n += 1
+                if loop == "fit_to_data":
+                    out, _ = fit_to_data(key, model, data, max_epochs=2, batch_size=8, optimizer=opt, show_progress=False)
+                else:
+                    out, _ = fit_to_variational_target(key, model, ElboLoss(lambda z: -0.5 * jnp.sum(z**2), 8), steps=3, optimizer=opt, show_progress=False)
+                fa = jax.tree_util.tree_leaves(pick(out))
+                if len(fa) != len(frozen_before) or any(not np.array_equal(np.asarray(p), np.asarray(q)) for p, q in zip(fa, frozen_before)):
+                    add(f"{loop} with {oname}: leaves frozen with NonTrainable ({vname}) changed during training", variant=vname, optimizer=oname, loop=loop)
+                nf = [l for l in jax.tree_util.tree_leaves(out) if not eqx.is_inexact_array(l)]
+                if len(nf) != len(nonfloat_before) or any(not np.array_equal(np.asarray(p), np.asarray(q)) for p, q in zip(nf, nonfloat_before)):
+                    add(f"{loop} with {oname}: non-floating leaves changed during training", optimizer=oname, loop=loop)
+                if first_only and fails:
+                    return fails
+    if count is not None:
+        count.append(n)
+    return fails
